@@ -75,6 +75,7 @@ def gamma_like(types):
         cell('pos-switch-100', around(100, 3)),
         cell('pos-switch-stirling', around(lambda p: max(100, 0.2 * wp_gamma(p)), 4)),
         Cell('pos-stirling', args(real_in(7, 20, 0))),
+        Cell('pos-huge', args(real_in(21, 40, 0))),
         Cell('neg-taylor', args(real_in(-3, 6, 1))),
         cell('neg-switch-100', around(100, 3, sign=-1)),
         Cell('neg-stirling-reflection', args(real_in(7, 14, 1))),
@@ -168,6 +169,7 @@ TABLE = {
         Cell('int', args(integer(0, 400))),
         cell('int-large', ints(1000, 4095, 10**4, 10**5, 10**6)),
         Cell('real', args(real_in(-3, 8))),
+        Cell('pos-huge', args(real_in(21, 40, 0))),
         cell('switch-100', around(99, 3)),
         cell('tiny', real_p(lambda p: (-2 * p - 60, -p - 12))),
         cell('near-pole', pole_near(1, 120, pk=lambda p: (4, p + 10))),
